@@ -85,6 +85,11 @@ func requireOnSuccessIdx(c *fw.Ctx, rule, fname string, fn *ssa.Function, idx in
 			stageTable = c.P.Pos(call.Pos())
 		}
 	}
+	if stageTable == "" {
+		if od := fw.OpaqueDispatch(fn); strings.Contains(od, "table") {
+			stageTable = od
+		}
+	}
 	for _, n := range needs {
 		bad, opaque := "", ""
 		for _, r := range succ {
